@@ -39,6 +39,14 @@ def main(argv):
         return 2
     if argv[0] == "--setup":
         return setup()
+    if argv[0] == "--build":
+        # development helper: regenerate + make the given targets under the build lock
+        with V._Lock("coq.lock"):
+            ok, msg, _ = V.regenerate()
+            print(msg)
+            ok2, out = V.coq_make([f"Properties/{a}.vo" if not a.endswith(".vo") else a for a in argv[1:]] or None)
+        print(out[-5000:])
+        return 0 if ok and ok2 else 1
     prop = argv[0]
     tier = os.environ.get("VERIF_TIER", "quick")
     seed = int(os.environ.get("VERIF_SEED", "0") or 0)
